@@ -145,7 +145,7 @@ func guard(f func()) (panicked bool, val any) {
 	return false, nil
 }
 
-const shardSize = 200
+const shardSizeMax = 200
 
 func (c *ctx) write(outDir string) error {
 	if err := os.MkdirAll(outDir, 0o755); err != nil {
@@ -160,6 +160,18 @@ func (c *ctx) write(outDir string) error {
 		os.Remove(f)
 	}
 	nshards := 0
+	// at least 16 shards when there is enough work, so that all cores are used
+	shardSize := shardSizeMax
+	total := 0
+	for _, k := range c.cases {
+		total += len(k.Model) + len(k.Obs)
+	}
+	if per := (len(c.cases) + 31) / 32; per < shardSize && total > 400000 {
+		shardSize = per
+		if shardSize < 5 {
+			shardSize = 5
+		}
+	}
 	for start := 0; start < len(c.cases); start += shardSize {
 		end := start + shardSize
 		if end > len(c.cases) {
